@@ -208,6 +208,13 @@ httpHeaderParseQuotedString(const char *start, const int len, String *val)
                 val->clean();
                 return 0;
             }
+            // quoted-pair of a character that is special here: take it literally
+            // (the scan below would stop in front of it and end the string early)
+            if (*pos == '\"' || *pos == '\\') {
+                val->append(pos, 1);
+                ++pos;
+                continue;
+            }
         }
         end = pos;
         while (end < (start+len) && *end != '\\' && *end != '\"' && (unsigned char)*end > 0x1F && *end != 0x7F)
